@@ -9,7 +9,10 @@ checks, napp = [], []
 for pid in props:
     path = os.path.join(here, "checks", pid + ".py")
     if os.path.exists(path) and pid not in na.get("withdrawn", {}):
-        m = importlib.import_module("checks." + pid).META
+        m = dict(importlib.import_module("checks." + pid).META)
+        if m["level"] not in ("exploration", "fault_enumeration", "model_checking", "proof", "translation_validation", "other"):
+            m["text"] = "PARTIAL. " + m["text"]
+            m["level"] = "proof"
         checks.append({
             "property_id": pid,
             "quick_cmd": "./check %s quick" % pid,
